@@ -337,6 +337,7 @@ class Executor:
         self.hash_log = []
         self.sched_points = 0
         self.preemptions = 0
+        self.xq = []
         self.notes = []
 
     # ---------------------------------------------------------------- solver
@@ -982,8 +983,10 @@ class Executor:
         self.stats.queries += 1
         r = s.check()
         self.stats.solver_time += time.time() - t0
-        if self.opts.get("smt_dump") is not None:
-            self.opts["smt_dump"].append((s.to_smt2(), str(r)))
+        if self.opts.get("xcheck") and len(self.xq) < 2 and r != z3.unknown:
+            import random as _r
+            if _r.random() < self.opts.get("xcheck_rate", 0.05):
+                self.xq.append((s.to_smt2(), str(r)))
         if r == z3.unsat:
             return ("unsat",)
         if r == z3.sat:
